@@ -740,7 +740,7 @@ theorem mean0_mem (hn : 0 < n) {ε : ℝ} {p : Fin n → Fin K → ℝ}
     simpa using this
   have hhi : ∑ i, p i k ≤ (n : ℝ) * (1 - ε) := by
     have := Finset.sum_le_sum (s := Finset.univ) fun i _ => (hp i k).2
-    simpa using this
+    simpa [mul_sub] using this
   constructor
   · rw [le_div_iff₀ hnR]; linarith
   · rw [div_le_iff₀ hnR]; linarith
